@@ -535,6 +535,9 @@ func (req *Request) Process(store StorageClient, stat *Stats) (resp *Response, e
 		key := req.Keys[0]
 		var suc bool
 		suc, err = store.Append(key, req.Item.Body)
+		// Append gets only the bytes: the value buffer (counted by Read) is still ours
+		cmem.DBRL.SetData.SubSizeAndCount(req.Item.CArray.Cap)
+		req.Item.CArray.Free()
 		if err != nil {
 			resp.Status = "SERVER_ERROR"
 			resp.Msg = err.Error()
@@ -622,6 +625,11 @@ func (req *Request) Process(store StorageClient, stat *Stats) (resp *Response, e
 		resp = nil
 
 	default:
+		if req.Item != nil {
+			// e.g. prepend, decr: parsed and counted by Read, but not supported
+			cmem.DBRL.SetData.SubSizeAndCount(req.Item.CArray.Cap)
+			req.Item.CArray.Free()
+		}
 		resp = nil
 		logger.Errorf("Should not reach here, req.Cmd: %s", req.Cmd)
 	}
